@@ -9,7 +9,15 @@ def regen_imports():
     return t, core.write_if_changed(core.LEAN / "CddVerif" / "Gen" / "Imports.lean", t.to_lean())
 
 
+def regen_loops():
+    from harness.translators.loops import scan, to_lean
+
+    w, r = scan(core.REPO)
+    return (w, r), core.write_if_changed(core.LEAN / "CddVerif" / "Gen" / "Loops.lean", to_lean(w, r))
+
+
 def regen_all():
     out = []
+    out.append(("Gen/Loops.lean", regen_loops()[1]))
     out.append(("Gen/Imports.lean", regen_imports()[1]))
     return out
